@@ -644,7 +644,9 @@ def main(argv=None):
     }
     # a run restricted with --only covers part of the property: its record goes to the
     # (ignored) work directory and never replaces evidence/<id>.json
-    ev_dir = os.path.join(ROOT, "evidence") if a.only is None else os.path.join(ROOT, ".work", "evidence-partial")
+    # (likewise runs against a deliberately changed /repo: tools/seed_test.sh sets VERIF_SCRATCH_RUN)
+    scratch = a.only is not None or bool(os.environ.get("VERIF_SCRATCH_RUN"))
+    ev_dir = os.path.join(ROOT, ".work", "evidence-partial") if scratch else os.path.join(ROOT, "evidence")
     os.makedirs(ev_dir, exist_ok=True)
     ev = _jsonable(ev)
     with open(os.path.join(ev_dir, f"{prop}.json"), "w") as fh:
